@@ -110,6 +110,11 @@ type World struct {
 	// when it is invoked, that list still holds what the caller put there.
 	AliasProbe bool
 	Later      []argmapper.Arg
+	// ProvideIfaceInputs: RedefineCall supplies NAMED interface-typed inputs of
+	// the redefined function through zero-input provider functions (ids 901..)
+	// that return a value of exactly that interface type; Providers counts them.
+	ProvideIfaceInputs bool
+	Providers          int
 	// TargetDefaults: further default options given to NewFunc when Setup
 	// creates the target (e.g. Redefine filters supplied as defaults).
 	TargetDefaults []argmapper.Arg
@@ -771,7 +776,8 @@ func (w *World) RedefineCall(target *argmapper.Func, args []argmapper.Arg) (rf *
 	if redefErr != nil || rf == nil {
 		return rf, redefErr, "", nil, o
 	}
-	var callArgs []argmapper.Arg
+	var callArgs, providers []argmapper.Arg
+	nProviders := 0
 	tok := 500
 	for _, v := range rf.Input().Values() {
 		ti := TypeIdx(v.Type)
@@ -779,6 +785,20 @@ func (w *World) RedefineCall(target *argmapper.Func, args []argmapper.Arg) (rf *
 			continue
 		}
 		l := Label{Name: v.Name, Type: ti, Sub: v.Subtype}
+		if IsIface(ti) && v.Name != "" && w.ProvideIfaceInputs {
+			// a NAMED input of interface type can only be given a value of
+			// exactly that (static) type by a function that returns it: the
+			// caller hands the redefined function a provider
+			nProviders++
+			fs := &FuncSpec{ID: 900 + nProviders, InForm: FormPos, OutForm: FormStruct,
+				Out: []Label{{Name: v.Name, Type: ti, Sub: v.Subtype, Dyn: Implementers(ti)[0]}}}
+			pf, err := w.Realize(fs)
+			if err != nil {
+				panic(err)
+			}
+			providers = append(providers, argmapper.ConverterFunc(pf))
+			continue
+		}
 		if IsIface(ti) {
 			l.Type = Implementers(ti)[0]
 		}
@@ -806,8 +826,10 @@ func (w *World) RedefineCall(target *argmapper.Func, args []argmapper.Arg) (rf *
 		w.Ledger[in.Tok] = org
 	}
 	w.mu.Unlock()
+	callArgs = append(callArgs, providers...)
+	w.Providers = nProviders
 	callArgs = append(callArgs, Quiet())
-	if w.AliasProbe && len(fresh)+1 <= spare {
+	if w.AliasProbe && len(fresh)+1 <= spare && nProviders == 0 {
 		later := args // shares its backing array with what Redefine was given
 		w.mu.Lock()
 		for _, in := range fresh {
